@@ -4,6 +4,7 @@ package main
 
 import (
 	"fmt"
+	"go/token"
 	"strings"
 
 	"golang.org/x/tools/go/ssa"
@@ -82,6 +83,15 @@ func propC16(r *Run, w *World) {
 		wantMask := fmt.Sprint(maskOf[spec.field])
 		ok = len(stores) == 2 && stores["Mask"] == wantMask && stores[spec.field] == spec.value
 		detail := fmt.Sprintf("%s builds AuditStatus%v; want {Mask: %s (AuditStatus%s), %s: %s}", name, stores, wantMask, spec.field, spec.field, spec.value)
+		if !ok && name == "SetEnabled" && len(stores) == 2 && stores["Mask"] == wantMask && stores["Enabled"] == "1" {
+			// the same value written as a conditional store into a zeroed status:
+			// `if enabled { s.Enabled = 1 }`
+			st := storeInstr["Enabled"]
+			if HoldsAt(st.Block(), "p1") {
+				r.OK("setter "+name, fn.Pos(), "{Mask: AuditStatusEnabled, Enabled: 1 exactly when enabled} (conditional store into a zeroed status)")
+				continue
+			}
+		}
 		if ok && name == "SetEnabled" {
 			// φ{0|1}: 1 exactly on the edge where the parameter is true
 			phi, isPhi := storeInstr["Enabled"].Val.(*ssa.Phi)
@@ -126,34 +136,7 @@ func propC16(r *Run, w *World) {
 		if ld, ok := send.Common().Args[0].(*ssa.UnOp); ok {
 			loc = AddrTerm(ld.X)
 		}
-		m := map[string]string{}
-		for _, st := range storesOf(fn) {
-			t := AddrTerm(st.Addr)
-			if strings.HasPrefix(t, loc+".") {
-				k := strings.TrimPrefix(t, loc+".")
-				// a store to an aggregate replaces what was stored to its parts before
-				for old := range m {
-					if strings.HasPrefix(old, k+".") {
-						delete(m, old)
-					}
-				}
-				m[k] = Term(st.Val)
-			}
-		}
-		// zeroing an aggregate before its parts are set says only "the remaining parts are zero"
-		for k, v := range m {
-			if strings.HasPrefix(v, "zero(") {
-				parts := false
-				for other := range m {
-					if strings.HasPrefix(other, k+".") {
-						parts = true
-					}
-				}
-				if parts {
-					delete(m, k)
-				}
-			}
-		}
+		m := structFields(fn, loc, nil, 0)
 		return m, loc
 	}
 	{
@@ -256,4 +239,78 @@ func propC16(r *Run, w *World) {
 		}
 		r.Check(ok, "toWireFormat", fn.Pos(), "full-size byte view of a copy of the status", "toWireFormat does not return the full-size byte view of its (copied) receiver")
 	}
+}
+
+// structFields reconstructs what a local struct holds from the stores of its function, in
+// program order: a store to a field sets it (and forgets what was stored to its parts), a
+// store of another local struct copies that struct's fields as they were at that point, a
+// zero value clears. Keys are field paths relative to loc ("Header.Type"); values are terms.
+// Whether the struct was built by a literal, by field assignments, or in a helper's result
+// variable that was then copied makes no difference.
+func structFields(fn *ssa.Function, loc string, before *ssa.Store, depth int) map[string]string {
+	m := map[string]string{}
+	if depth > 4 || loc == "" {
+		return m
+	}
+	set := func(k, v string) {
+		for old := range m {
+			if k == "" || strings.HasPrefix(old, k+".") {
+				delete(m, old)
+			}
+		}
+		if k != "" {
+			m[k] = v
+		}
+	}
+	for _, st := range storesOf(fn) {
+		if before != nil && st == before {
+			break
+		}
+		t := AddrTerm(st.Addr)
+		var k string
+		switch {
+		case t == loc:
+			k = ""
+		case strings.HasPrefix(t, loc+"."):
+			k = strings.TrimPrefix(t, loc+".")
+		default:
+			continue
+		}
+		// copying another local struct (or a field of one)?
+		if ld, ok := stripConv(st.Val).(*ssa.UnOp); ok && ld.Op == token.MUL {
+			src := AddrTerm(ld.X)
+			if strings.HasPrefix(src, "local.") || strings.HasPrefix(src, "new(") {
+				sub := structFields(fn, src, st, depth+1)
+				if len(sub) > 0 {
+					set(k, "")
+					for sk, sv := range sub {
+						if k == "" {
+							m[sk] = sv
+						} else {
+							m[k+"."+sk] = sv
+						}
+					}
+					if k != "" {
+						delete(m, k)
+					}
+					continue
+				}
+			}
+		}
+		v := Term(st.Val)
+		if strings.HasPrefix(v, "zero(") {
+			set(k, "")
+			if k != "" {
+				delete(m, k)
+			}
+			continue
+		}
+		if k == "" {
+			set("", "")
+			m[""] = v
+			continue
+		}
+		set(k, v)
+	}
+	return m
 }
